@@ -155,8 +155,14 @@ class Check(PropertyCheck):
         d1 = rng.randint(0, 3)
         d2 = d1 + rng.randint(0, 6)
         al = 1 if rng.random() < 0.7 else 0
-        if not al:
-            j1 = max(j1, m1)
+        if rng.random() < 0.15:
+            # a generator that must sometimes refuse: fewer jobs than machines are not allowed, and the job range starts below the machine range
+            al, j1, m1 = 0, rng.randint(1, 2), rng.randint(3, 4)
+            m2 = m1 + rng.randint(0, 1)
+            j2 = m2 + rng.randint(0, 1)
+        elif not al:
+            if rng.random() < 0.6:
+                j1 = max(j1, m1)      # (otherwise: a job count below the machine range can be drawn - the generator must refuse, not shrink the shop)
             j2 = max(j2, j1, m2)      # the max-size instance must exist
         rc = rng.choice([0, 0, 1])
         if rng.random() < 0.75:
@@ -179,7 +185,9 @@ class Check(PropertyCheck):
         lines = ["new", gen.filter_line(f), "menv " + " ; ".join([params, head] + feats + [" ".join(map(str, draws))])]
         steps = 0
         many = many_same or rng.random() < 0.25       # many short (abandoned) episodes: what one episode leaves behind must not show in the next
-        for ep in range(rng.randint(5, 10) if many else rng.randint(1, 3)):
+        may_refuse = bool(not al and j1 < m1)
+        # (a refusing generator has used up draws the model does not account for: such scenarios have one episode)
+        for ep in range(1 if may_refuse else rng.randint(5, 10) if many else rng.randint(1, 3)):
             lines.append("mreset")
             for _ in range(rng.randint(0, 3) if many and rng.random() < 0.7 else rng.randint(0, j2 * m2)):
                 if rng.random() < inject:
@@ -188,7 +196,7 @@ class Check(PropertyCheck):
                     lines += ["mark injected", f"mbad {rng.randint(0, 200)} {m2 + 1}"]
                 lines.append(f"mauto {rng.randint(0, 50)}")
                 steps += 1
-        meta.update({"kind": "multi", "steps": steps, "recirc": rc, "multi_machine": int(k2 > 1), "allow_less": al,
+        meta.update({"kind": "multi", "steps": steps, "recirc": rc, "may_refuse": bool(not al and j1 < m1), "multi_machine": int(k2 > 1), "allow_less": al,
                      "params": [j1, j2, m1, m2, d1, d2, al, rc, k1, k2], "n_feats": len(feats),
                      "filter": "none" if f is None else "+".join(f) or "empty",
                      "filter_style": rng.choice(["callable", "enum", "str"])})
@@ -331,6 +339,10 @@ class Check(PropertyCheck):
             return res
         legal = cmd in ("eauto", "mauto") or cmd in ("eobs", "ereset", "mreset")
         if out.endswith("raise") or out == "raise":
+            if cmd == "mreset" and scenario.meta.get("may_refuse"):
+                # fewer jobs than the smallest shop were drawn and the generator may not go below the machine range: it refuses (the model
+                # refuses at exactly the same draws - compared by the correspondence); nothing to judge
+                return res
             if legal:
                 key = "raise-on-legal"
                 why = ""
@@ -367,6 +379,15 @@ class Check(PropertyCheck):
                 res.append(("truncated", f"{line}: truncation signalled"))
         if cmd == "mreset":
             res += self.check_multi_config(impl, env, single, scenario)
+            # the instance of the new episode lies inside the generator's ranges
+            j1, j2, m1, m2, d1, d2, al = scenario.meta["params"][:7]
+            inst = single.instance
+            J, Ms = len(inst.jobs), sorted({len(job) for job in inst.jobs})
+            if not j1 <= J <= j2 or len(Ms) != 1 or not m1 <= Ms[0] <= m2 or (not al and J < Ms[0]) or \
+                    any(not d1 <= op.duration <= d2 for job in inst.jobs for op in job):
+                res.append(("instance-out-of-range", f"{line}: the episode's instance has {J} jobs x {Ms} operations per job (durations "
+                            f"{sorted({op.duration for job in inst.jobs for op in job})}), the generator's ranges are jobs {j1}..{j2}, "
+                            f"machines {m1}..{m2}, durations {d1}..{d2}, fewer jobs than machines allowed: {bool(al)}"))
         return res
 
     def check_multi_config(self, impl, env, single, scenario):
